@@ -28,7 +28,7 @@ pub static DEF: PropDef = PropDef {
     scen,
     extra_phase: Some(sweep_phase),
     real: &["Ingester (write, WAL append, buffer, threshold/timer/shutdown flush, ensure_wal recovery)", "WriteAheadLog + flushed_seq on the shim disk", "ObjectStoreMetadataClient", "ParquetWriter"],
-    stub: &["S3 = InMemory behind SimStore", "disk = tmpfs shim (process-crash semantics)", "process = incarnation fencing"],
+    stub: &["S3 = InMemory behind SimStore", "disk = tmpfs behind the WAL's file shim: a tokio::fs::File stand-in with tokio's deferred write errors, process-crash semantics in two thirds of the runs, power-loss semantics (unsynced bytes, pages of a failed fsync and files without a directory sync are lost) in one third", "process = incarnation fencing"],
     assumptions: &["WalSyncMode::EveryWrite (the property's precondition)", "process-crash semantics for the local disk", "an acknowledgement counts only if the node was still alive when write() returned"],
 };
 
